@@ -37,11 +37,14 @@ CLAIMED = {
         design="6/C04", technique="TLA+ model checked by TLC; transition replay with sampled content; TLC trace judge"),
     "C05": dict(
         text="Every failing way inside the bound (k-th unresolvable ID of an n-list, unknown/blank target, unknown story, equal swap "
-             "operands) is a TLC transition replayed into the code; a non-ok status must leave the abstract state and str(ro) unchanged.",
+             "operands) is a TLC transition replayed into the code; a non-ok status must leave the abstract state and str(ro) unchanged. Includes the metadata family "
+             "(roMetadataReplace with schema names spelled as URLs, malformed ones too) and random transitions with ID lists of 5-13 entries.",
         design="6/C05", technique="TLA+ model checked by TLC; exhaustive transition replay; TLC trace judge"),
     "C06": dict(
         text="For every subset of an n<=2/3 list being unresolvable/duplicate: TLC computes the allowed (status, warnings, effect) "
-             "combinations; the recorded warnings, the set of elements present and whether each listed element moved must match one.",
+             "combinations; the recorded warnings, the set of elements present and whether each listed element moved must match one. Containers that "
+             "hold an ID twice (layout `dup`) are enumerated for the delete classes and judged by the count-based clause `acted_upon` "
+             "(the k-th mention of an ID removes one such element while one is left, else exactly one warning).",
         design="6/C06", technique="TLA+ model checked by TLC; exhaustive transition replay; TLC trace judge"),
     "C07": dict(
         text="spec/MosLife.tla: TLC checks Completed <=> a roDelete was merged (history variable), terminality as an action property and the "
@@ -54,17 +57,21 @@ CLAIMED = {
         text="Behaviours of MosLife (two live running orders, message objects kept alive and re-merged) replayed on real objects: after "
              "every step every message object must serialise as at parse time, a re-merged object must give a result allowed by "
              "Merge for its ORIGINAL content, and each object's pre-state must equal its previous post-state (no change outside "
-             "its own steps).",
+             "its own steps); no Element object may be reachable from two live trees (MosAlias!NoSharedNodes observed on the real heap, "
+             "clause msg_unshared).",
         design="6/C13", technique="TLA+ history model; behaviour replay on live objects with aliasing observations; TLC trace judge (continuity)"),
     "C14": dict(
         text="Envelope invariants are TLC invariants of MosLife; on the code every visited state of every replayed behaviour is "
              "serialised and re-read (reload step): same abstract tree (content digests), same serialisation, RunningOrder class, "
-             "same completed flag; envelope clause judged on every merge step.",
+             "same completed flag; envelope clause judged on every merge step; the library's reading of every rendered document must be "
+             "the reference parser's (parse_faithful_ro). Rendered text includes CR / CRLF / C1 controls as character references, "
+             "CDATA, comments, processing instructions, namespaced and xml: attributes, text after elements.",
         design="6/C14", technique="TLA+ history model checked by TLC; behaviour replay with reload steps; TLC trace judge"),
     "C08": dict(
         text="spec/MosClassify.tla gives the class / library exception of every abstract document; TLC checks totality and that the "
              "outcome is a function of the message element alone over the bounded document set (16 tags x childless, 7 operations x "
-             "4 target x 6 source shapes, siblings and nested look-alikes, 5 malformed kinds); every document is rendered and "
+             "5 target x 7 source shapes, a repeated later target / source block of another shape, siblings and nested look-alikes, "
+             "5 malformed kinds); every document is rendered and "
              "classified from str, bytes and file under warning filters default/error and in a fresh python -W error interpreter; "
              "TLC (Trace_Classify) judges the recorded outcomes.",
         design="6/C08", technique="TLA+ case-analysis model checked by TLC; exhaustive replay into the classifier; TLC trace judge",
@@ -74,18 +81,22 @@ CLAIMED = {
              "order, strict stops at first failure, non-strict one warning per failure) and liveness (every run terminates; non-strict "
              "reaches done) for every ordered list up to 3/4 documents x strict x allow; every list is run through the real "
              "constructors and merge; recorded runs are judged by TLC (Trace_Coll) and every `ro += msg` inside mc.merge() by "
-             "Trace_Merge; the result is also compared with a hand fold over freshly parsed messages.",
+             "Trace_Merge; the result is also compared with a hand fold over freshly parsed messages. Message IDs are rendered through strictly "
+             "increasing maps (negative, 16-digit, 11-digit) and mapped back before TLC judges; documents are encoded per document "
+             "(UTF-8 / ISO-8859-1 / UTF-16); bulk collections of 12 and 70 (thorough: up to 130) messages in five supply orders.",
         design="6/C09", technique="TLA+ state machine checked by TLC (safety + liveness); replay of every bounded collection; TLC trace judges",
         note="Trusted: TLC; ElementTree; harness alpha/gamma; FakeS3; tracer wrapper. Message kinds ok/warn/fail are realised by StoryAppend / StoryDelete(unknown) / StoryReplace(unknown)."),
     "C10": dict(
         text="All permutations of all document subsets (ids of mixed width 8..1000) are distinct TLC initial states; TLC checks that "
              "construction is permutation independent and numerically ascending; each permutation is built through the three "
-             "constructors and the reader order and merged result compared with the spec's order / the hand fold.",
+             "constructors and the reader order and merged result compared with the spec's order / the hand fold. Bulk lists of 12 / 70 "
+             "messages (ascending, descending, rotated, straggler, interleaved) and ID styles with negative / 16-digit / 11-digit IDs.",
         design="6/C10", technique="TLA+ model checked by TLC over all permutations; replay; TLC trace judge"),
     "C11": dict(
         text="TLC checks staged validation = the four-clause declarative predicate for every list in the bound (incl. the empty list, "
              "0..2 roCreate, 0..2 roDelete, mixed roIDs) x allow_incomplete; each case is constructed in-process through three "
-             "constructors and in a fresh `python -O` interpreter; accepted/InvalidMosCollection, ro and readers judged by TLC.",
+             "constructors, through the documented constructor called twice on one caller-owned list, and in a fresh `python -O` "
+             "interpreter; accepted/InvalidMosCollection, ro and readers judged by TLC.",
         design="6/C11", technique="TLA+ model checked by TLC; replay incl. python -O subprocess; TLC trace judge"),
     "C12": dict(
         text="The `contained` clause over all bounded transitions of all 24 classes (a schema-shaped message never ends in a built-in "
